@@ -3,6 +3,7 @@ package worker
 import (
 	"bytes"
 	"runtime"
+	"strings"
 	"sync"
 
 	"github.com/tyler-sommer/stick"
@@ -31,7 +32,7 @@ func (v *yieldVisitor) Leave(n parse.Node) {
 	}
 }
 
-func runCall(env *stick.Env, c sb.Call) sb.SubResp {
+func runCall(env *stick.Env, c sb.Call, fsDir ...string) sb.SubResp {
 	var out bytes.Buffer
 	var err error
 	switch c.Kind {
@@ -49,6 +50,12 @@ func runCall(env *stick.Env, c sb.Call) sb.SubResp {
 	sr := sb.SubResp{Out: out.String()}
 	if err != nil {
 		sr.IsE, sr.Err = true, err.Error()
+		// the scratch directory of the filesystem loader differs per environment
+		for _, d := range fsDir {
+			if d != "" {
+				sr.Err = strings.ReplaceAll(sr.Err, d, "<fs>")
+			}
+		}
 	}
 	return sr
 }
@@ -78,14 +85,14 @@ func opConc(req *sb.Req) *sb.Resp {
 		// shared environment (state kept by the environment or the library
 		// between calls must not change any result)
 		for i, c := range req.Calls {
-			resp.Subs[i] = runCall(b.env, c)
+			resp.Subs[i] = runCall(b.env, c, b.fsDir)
 		}
 		for _, c := range req.Calls {
 			b2, err := buildEnv(req.Env, req.Loader, req.Templates, 0, 0)
 			if err != nil {
 				return &sb.Resp{Status: "infra", Err: err.Error()}
 			}
-			resp.Subs2 = append(resp.Subs2, runCall(b2.env, c))
+			resp.Subs2 = append(resp.Subs2, runCall(b2.env, c, b2.fsDir))
 			b2.cleanup()
 		}
 		return resp
@@ -97,7 +104,7 @@ func opConc(req *sb.Req) *sb.Resp {
 		go func(i int, c sb.Call) {
 			defer wg.Done()
 			<-start
-			resp.Subs[i] = runCall(b.env, c)
+			resp.Subs[i] = runCall(b.env, c, b.fsDir)
 		}(i, c)
 	}
 	close(start)
@@ -107,7 +114,7 @@ func opConc(req *sb.Req) *sb.Resp {
 		if err != nil {
 			return &sb.Resp{Status: "infra", Err: err.Error()}
 		}
-		resp.Subs2 = append(resp.Subs2, runCall(b2.env, c))
+		resp.Subs2 = append(resp.Subs2, runCall(b2.env, c, b2.fsDir))
 		b2.cleanup()
 	}
 	return resp
